@@ -314,6 +314,9 @@ def draw_maps(draw, st, models, max_cells=700):
             mm = draw(st.sampled_from(PER_MAP_MODELS)) if model == "mixed" else model
             arr[b, c] = gen_map(draw, st, mm, H, W)
             names.append(mm)
+    # float32 denormals underflow to 0 inside the bilinear crop (0.25 * 1.4e-45 -> 0), which would turn
+    # a 'positive' patch into an all-zero one: magnitudes below 1e-30 are flushed to exactly 0
+    arr[np.abs(arr) < 1e-30] = 0.0
     # a duplicated map inside the batch now and then (same map, different slot)
     if B * C > 1 and draw(st.integers(0, 7)) == 0:
         src = draw(st.integers(0, B * C - 1))
